@@ -375,3 +375,111 @@ def mutate_value(spec, f, attr, rng, counter):
     if o.typ in ("str", "text"):
         pl.append("mutated%d" % counter)
     return rng.choice(pl)
+
+
+# ------------------------------------------------------------------------------------------------
+# Unicode overlay: URI-typed fields, string-typed options, kwargs keys with text that is NOT stable under Unicode
+# normalisation (the oracle compares code point by code point and never normalises; ``unicodedata`` is used only to
+# CLASSIFY generated inputs for the evidence counters)
+# ------------------------------------------------------------------------------------------------
+
+import unicodedata
+
+# every entry is one URI component under the loose grammar: no whitespace, no '.', no '#'
+UNI_UNSTABLE = [
+    "café",                       # NFD: base letter + combining acute
+    "Ångström",             # NFD
+    "Å", "Ω", "K",       # ANGSTROM / OHM / KELVIN SIGN (canonical singletons)
+    "한글",   # Hangul conjoining jamo
+    "豈", "兀塚",            # CJK compatibility ideographs (singletons)
+    "\U0002f800",                       # astral CJK compatibility supplement (singleton)
+    "\U0001d15e\U0001d15f",             # musical symbols excluded from composition (NFC decomposes them)
+    "क़य़",                     # Devanagari composition exclusions
+    "⫝̸",                           # FORKING (composition exclusion)
+    "q̣̇",                    # combining marks in non-canonical order (NFC reorders)
+    "̈́", "à́", "ʹ", ";", "·", "ι", "〈〉",
+    "à֮̀̕b",   # the reordering example of UAX #15
+    "ḍ̇", "ḍ̇", "ṩ", "ṩ",
+    "Ą́", "ぱ゚" if False else "ぱ", "ガ",   # kana + combining (semi-)voiced mark
+    "אַּ", "אַ", "أ", "أ",
+]
+UNI_STABLE = [
+    "é", "café", "ﬁ", "ﬃx", "①", "µ", "ſ",          # precomposed / compatibility (NFC-stable)
+    "\U0001f600", "\U00010348", "\U0010fffd", "\U0001f1e9\U0001f1ea",
+    "\U0001f468‍\U0001f469‍\U0001f467", "a‍b", "x‌y", "‍", "﻿b",   # zero-width joiners
+    "abcдеж漢字ال", "αβaб", "กิน", "한글",
+    "日本語", "İ", "İ", "ß", "ẞ", "ǅ",
+]
+for _c in UNI_UNSTABLE:
+    assert unicodedata.normalize("NFC", _c) != _c, _c.encode("unicode_escape")
+for _c in UNI_UNSTABLE + UNI_STABLE:
+    assert _c and not any(ch.isspace() or ch in ".#" for ch in _c), _c.encode("unicode_escape")
+
+
+def nfc_unstable(s):
+    return type(s) is str and unicodedata.normalize("NFC", s) != s
+
+
+def _uni_component(rng, unstable):
+    if unstable:
+        c = rng.choice(UNI_UNSTABLE)
+        return c if rng.random() < 0.6 else rng.choice(["x", "", rng.choice(UNI_STABLE)]) + c + rng.choice(["", "z", "9"])
+    return rng.choice(UNI_STABLE + UNI_UNSTABLE + ["abc", "x_1"])
+
+
+def uni_uri(rng, template=None):
+    """A URI with the component structure of ``template`` (empty components kept) whose components are Unicode text; at
+    least one component is not NFC-stable."""
+    parts = template.split(".") if template else ["a"] * rng.choice([1, 2, 3])
+    if len(parts) > 6:
+        parts = parts[:6] if parts[-1] else parts[:5] + [""]
+    idx = [i for i, p in enumerate(parts) if p]
+    if not idx:
+        return template
+    hot = rng.choice(idx)
+    return ".".join(("" if not p else _uni_component(rng, i == hot or rng.random() < 0.3)) for i, p in enumerate(parts))
+
+
+_STR_OPT_SKIP = ("enc_algo", "enc_key", "enc_serializer")
+
+
+def unicode_overlay(spec, f, rng):
+    """Replace, in place, URI-typed fields, string-typed option values and (when present) add kwargs keys / an args element
+    with Unicode text that is not NFC-stable.  -> {"uri": [...attrs], "opt": [...attrs], "keys": n}"""
+    info = {"uri": [], "opt": [], "keys": 0}
+    for p in spec.layout:
+        if p.kind == "uri" and type(f.get(p.attr)) is str:
+            f[p.attr] = uni_uri(rng, f[p.attr])
+            if nfc_unstable(f[p.attr]):
+                info["uri"].append(p.attr)
+    for o in spec.opts:
+        v = f.get(o.attr)
+        if v is None or o.typ in _STR_OPT_SKIP:
+            continue
+        if o.typ == "uri":
+            f[o.attr] = uni_uri(rng, v)
+            if nfc_unstable(f[o.attr]):
+                info["uri"].append(o.attr)
+        elif o.typ in ("str", "text") and v != "":
+            f[o.attr] = uni_uri(rng)
+            info["opt"].append(o.attr)
+        elif o.typ == "list-str" and v:
+            f[o.attr] = [uni_uri(rng) for _ in v]
+            info["opt"].append(o.attr)
+        elif o.typ == "forward_for" and v:
+            f[o.attr] = [dict(ff, authid=(uni_uri(rng) if ff["authid"] is not None else None), authrole=uni_uri(rng)) for ff in v]
+            info["opt"].append(o.attr)
+    if spec.payload and f.get("payload") is None:
+        if f.get("kwargs"):
+            kw = dict(f["kwargs"])
+            for _ in range(rng.choice([1, 2])):
+                s = uni_uri(rng)
+                kw[s] = s
+                info["keys"] += 1
+            if f.get(spec.layout[-1].attr) and spec.layout[-1].kind == "uri":
+                kw["same-as-uri"] = f[spec.layout[-1].attr]
+            f["kwargs"] = kw
+        if f.get("args"):
+            extra = [uni_uri(rng)] + [f[a] for a in info["uri"][:1]]
+            f["args"] = (tuple if type(f["args"]) is tuple else list)(list(f["args"]) + extra)
+    return info
